@@ -10,7 +10,7 @@ PID = ("stix2.versioning.parse_into_datetime replaced by its truncation model (u
        "justified by the C15 obligations on the real function; datetime.__new__ of STIXdatetime is C code CrossHair cannot trace")
 
 META = {
-    "engines": ["crosshair"],
+    "engines": ["crosshair", "pysym"],
     "level_text": "Bounded symbolic model checking of the real versioning code with the wall clock as a symbolic variable: _fudge_modified for every "
                   "old/new instant in a 5 s window at 1 us resolution (both version modes); new_version/revoke on dictionaries with symbolic clock, "
                   "old modified, caller-supplied modified, revoked flag and a symbolic change set (ordinary, removal, new key, each unmodifiable "
@@ -34,7 +34,7 @@ def obligations(tier):
         CH("new_version_dict", H, "nv_dict", t * 2, functions=F, stubs=[CLOCK, PID, FMT],
            bounds="clock, old modified, caller modified: every microsecond in a 3 s window; version, revoked flag symbolic; 9 change sets"),
         CH("sco_locked_properties", H, "sco_locked", t, mode="E1s", functions=F[1:2],
-           bounds="File object/dict x UUIDv5/UUIDv4 id x 4 properties x change/removal"),
+           bounds="a 2.1 File made versionable by custom created/modified/revoked, object and dict, UUIDv5 or explicit id x 6 properties (4 id-contributing, 2 of them absent) x alter / add / remove"),
         CH("marking_operations_version", H, "marking_ops", t * 2, mode="E1s", functions=F + ["stix2.markings.object_markings.add_markings",
            "stix2.markings.object_markings.remove_markings", "stix2.markings.object_markings.clear_markings", "stix2.markings.granular_markings.add_markings",
            "stix2.markings.granular_markings.remove_markings", "stix2.markings.granular_markings.clear_markings"],
@@ -52,4 +52,7 @@ def obligations(tier):
         obls.append(CH("chain3_p%d" % p, H, "chain", t, functions=F, stubs=[CLOCK, PID, FMT], env={"VERIF_PART": str(p)},
                        bounds="%d operations (quick 2, thorough 3), independent symbolic clocks in a 2 s window;" % (2 if tier == "quick" else 3) + " version %s, revoke at step %d (3 = never)" % (
                            "2.1" if p >= 4 else "2.0", p % 4)))
+    from props import C15
+    # "strictly later after serialization": the writer of timestamps is canonical and truncating for every value (shared with C15)
+    obls += [o for o in C15.obligations(tier) if o.name == "format_is_canonical_truncated"]
     return obls
